@@ -149,6 +149,15 @@ ConcVerdict(r) ==
         ELSE IF r.wrong > 0 THEN V("C04", "a get that had to wait for a reader fails or misreads: " \o r.first_bad)
         ELSE IF r.rounds_with_all_readers_held < r.rounds THEN V("drift", "the gets could not all be held right after taking their readers")
         ELSE OK
+    ELSE IF r.kind = "forced-fault-vs-get" THEN
+        IF ~r.paused THEN V("drift", "the writer could not be held at the failing call")
+        ELSE IF r.pre # "v1" \/ r.during_other # "o" THEN V("C04", "a get beside a set / delete that is failing misreads: " \o r.during_other)
+        ELSE IF \E i \in 1..Len(r.after) : r.after[i] # r.after[1] THEN V("C04", "gets after a failed " \o r.input.op \o " disagree with each other")
+        ELSE IF r.after[1] \notin {"v1", IF r.input.op = "del" THEN "none" ELSE "v2"} THEN V("C04", "after a failed " \o r.input.op \o " the key reads neither its old nor the new state: " \o r.after[1])
+        \* during the operation the key reads its old state or the state the gets afterwards agree on
+        ELSE IF r.during \notin {"v1", r.after[1]}
+               THEN V("C04", "a get that overlaps a " \o r.input.op \o " which then fails sees a state that the later gets take back (" \o r.during \o ", then " \o r.after[1] \o "): no order of the operations explains it")
+        ELSE OK
     ELSE IF r.kind = "forced-merge-vs-get" THEN
         IF ~r.parked THEN V("drift", "the get could not be parked between lookup and read")
         ELSE IF r.get # r.expect THEN V("C04", "a get that overlaps a merge pass fails or misreads: " \o r.get)
